@@ -240,7 +240,12 @@ impl<'r> Emitter<'r> {
             s.push_str("e400"); // overflows to INF
         }
         if self.rng.chance(1, 3) {
-            s.push_str(self.rng.pick_str(UNITS));
+            // "_custom" is a unit the library does not know (the number is rejected): only among
+            // the exotic spellings, never in the thousands of cells of an outsized document
+            let u = self.rng.pick_str(UNITS);
+            if u != "_custom" || self.cfg.exotic {
+                s.push_str(u);
+            }
         }
         s
     }
@@ -426,6 +431,8 @@ impl<'r> Emitter<'r> {
             if big <= 4097 && self.rng.chance(1, 3) {
                 n = big;
                 self.cfg.big = None;
+                self.cfg.exotic = false;
+                self.cfg.max_depth = self.cfg.max_depth.min(1);
             }
         }
         for i in 0..n {
@@ -507,6 +514,10 @@ impl<'r> Emitter<'r> {
                     nrows = big;
                 }
                 self.cfg.big = None;
+                // thousands of cells: one rejected spelling would reject the whole document, so the
+                // cells of an outsized grid stay within the plain spellings
+                self.cfg.exotic = false;
+                self.cfg.max_depth = self.cfg.max_depth.min(1);
             }
         }
         if !self.cfg.exotic && nrows == 0 {
